@@ -2,8 +2,8 @@ SPECIFICATION Spec
 CONSTANTS
   Threads = {1, 2, 3}
   Deep = 1
-  MaxDepth = 3
-  ShallowDepth = 2
+  MaxDepth = 2
+  ShallowDepth = 1
   Fams <- OnlyGlobal
   Mirror = FALSE
 VIEW noact
